@@ -4,26 +4,95 @@ package jd
 
 func init() {
 	vHarnesses["VerifC01Flat"] = VerifC01Flat
+	vHarnesses["VerifC01Nest"] = VerifC01Nest
+	vHarnesses["VerifC01Obj"] = VerifC01Obj
+	vHarnesses["VerifC01Keyed"] = VerifC01Keyed
+	vHarnesses["VerifC01Void"] = VerifC01Void
+	vHarnesses["VerifC01Mixed"] = VerifC01Mixed
+	vHarnesses["VerifC01Canary"] = VerifC01Canary
 }
 
-
-
-// VerifC01Flat: diff-then-patch on two arrays of numbers, every option set.
-func VerifC01Flat() {
-	k := vChoice(optCount)
-	vAssume(k != optSetKeys) // keyed sets need object members: separate family
+// vC01Check: the property itself.
+func vC01Check(a, b JsonNode, k int, label string) {
 	opts := vOptions(k)
-	a := vNumArray(vParam("N", 3))
-	b := vNumArray(vParam("N", 3))
+	if vKnown("hash.alias") {
+		vAssumeNoHashAlias(a, b)
+	}
 	d := a.Diff(b, opts...)
 	var x JsonNode = a
-	if vChoice(2) == 1 {
+	if vParam("CLONE", 0) == 1 && vChoice(2) == 1 {
 		x = vClone(a)
 	}
-	vObserve("diff", d.Render())
+	vObserve(vObsLabel(k, "diff"), d.Render())
 	p, err := x.Patch(d)
 	vAssert(err == nil, "patch of own diff failed")
-	vObserve("patched", p.Json())
+	vObserve(vObsLabel(k, "patched"), p.Json())
 	vAssert(p.Equals(b, opts...), "patched document differs from target")
-	vCover("c01.flat." + optName(k))
+	vCover(label + "." + optName(k))
+}
+
+// VerifC01Flat: two arrays of numbers, every option set.
+func VerifC01Flat() {
+	k := vOptChoice(0x77)
+	n := vParam("N", 3)
+	vC01Check(vNumArray(n), vNumArray(n), k, "c01.flat")
+}
+
+// VerifC01Nest: arrays holding leaves, arrays and objects, optionally under a key / inside an array.
+func VerifC01Nest() {
+	k := vOptChoice(0x17)
+	n := vParam("N", 2)
+	how := [...]int{0, 3, 1, 2}[vChoice(vParam("WRAPS", 2))]
+	vC01Check(vWrap(vNestArray(n), how), vWrap(vNestArray(n), how), k, "c01.nest")
+}
+
+// VerifC01Obj: objects with present/absent keys, nested objects and arrays.
+func VerifC01Obj() {
+	k := vOptChoice(0x77)
+	d := vParam("D", 0)
+	vC01Check(vObjDoc(d), vObjDoc(d), k, "c01.obj")
+}
+
+// VerifC01Keyed: arrays of objects identified by "id".
+func VerifC01Keyed() {
+	n := vParam("N", 2)
+	m := vParam("M", n)
+	how := vChoice(2)
+	vC01Check(vWrap(vKeyedArray(n), how), vWrap(vKeyedArray(m), how), optSetKeys, "c01.keyed")
+}
+
+// VerifC01Void: void and scalars of every kind on either side.
+func VerifC01Void() {
+	k := vOptChoice(0x77)
+	a, b := vScalarOrVoid(), vScalarOrVoid()
+	if isMergeOpt(k) {
+		vAssume(!vHasNull(a) && !vHasNull(b))
+	}
+	vC01Check(a, b, k, "c01.void")
+}
+
+// VerifC01Mixed: arrays of leaves of every kind (strings, bools, null).
+func VerifC01Mixed() {
+	k := vOptChoice(0x77)
+	n := vParam("N", 2)
+	a, b := make(jsonArray, vChoice(n+1)), make(jsonArray, vChoice(n+1))
+	for i := range a {
+		a[i] = vLeaf()
+	}
+	for i := range b {
+		b[i] = vLeaf()
+	}
+	if isMergeOpt(k) {
+		vAssume(!vHasNull(a) && !vHasNull(b))
+	}
+	vC01Check(a, b, k, "c01.mixed")
+}
+
+// VerifC01Canary must be violated.
+func VerifC01Canary() {
+	a, b := vNumArray(2), vNumArray(2)
+	d := a.Diff(b)
+	p, err := vClone(a).Patch(d)
+	vAssert(err == nil, "patch failed")
+	vAssert(p.Equals(a), "canary: patched equals the source")
 }
